@@ -377,6 +377,7 @@ class Evaluator(object):
                     t = mem[t]   # what was last stored through this reference on this path
                 continue
             cell = None
+            from_value = False
             if k == "field":
                 name = e.get("name", str(e["i"]))
                 if "closure" in e and body.is_closure and p["l"] == 1 and t in (("param", 1), ("closure_env",)):
@@ -386,6 +387,7 @@ class Evaluator(object):
                         t = ("upvar", name)
                 elif t[0] == "agg" and t[1] in ("tuple", "adt", "closure") and e["i"] < len(t[3]):
                     t = t[3][e["i"]]
+                    from_value = True   # a component of a value built on this path: a value, not a place to re-read
                 elif t[0] == "variant" and t[1][0] == "iternext" and t[2] == "Some":
                     lid = t[1][1]
                     t = ("elem", lid)
@@ -404,7 +406,7 @@ class Evaluator(object):
                     t = ("variant", t, e.get("variant"))
             else:
                 t = ("proj", t, k)
-            if mem and k != "deref" and t in mem and not (for_store and pi == np - 1):
+            if mem and k != "deref" and not from_value and t in mem and not (for_store and pi == np - 1):
                 t = mem[t]
         if want_cell:
             return t, cell
@@ -1177,14 +1179,16 @@ def _is_part(a, b):
 
 
 def _shares_root(place, arg):
-    r = _place_root(place)
+    """Could code that receives `arg` change what is stored at `place`?  Only if one of the two lies inside the other:
+    `self.world` handed to a callee cannot touch `self.index`."""
     x = arg
-    # look through the transparent part of the argument
     for _ in range(12):
-        if _place_root(x) == r:
+        if _is_part(place, x) or _is_part(x, place):
             return True
         if isinstance(x, tuple) and x and x[0] == "call" and x[2]:
-            x = x[2][0]
+            x = x[2][0]   # look through the transparent part of the argument
+        elif isinstance(x, tuple) and x and x[0] == "cast":
+            x = x[2]
         else:
             return False
     return False
